@@ -25,6 +25,7 @@ import (
 	"github.com/rqlite/rqlite/v10/internal/fsutil"
 	"github.com/rqlite/rqlite/v10/internal/rsum"
 	"github.com/rqlite/rqlite/v10/internal/rsync"
+	"github.com/rqlite/rqlite/v10/internal/vhook"
 )
 
 const (
@@ -1793,6 +1794,9 @@ func (db *DB) Dump(w io.Writer, tableNames ...string) error {
 	row := rows[0]
 	for _, v := range row.Values {
 		table := v.Parameters[0].GetS()
+		if vhook.Fail("dump.table") {
+			return fmt.Errorf("injected failure dumping table %s", table)
+		}
 
 		var stmt string
 
